@@ -798,3 +798,18 @@ fire('c07-hash-update-of-partial-input', ['C07'], 'C07.FIELD-COVER',
 fire('c11-wait-timeout-closure-param-none', ['C11'], 'C11.WAIT-TIMEOUT',
      (LAB, 'TaskCoordinator.run', "        def process_completed_tasks():", "        def process_completed_tasks(*, timeout_seconds=None):"),
      (LAB, 'TaskCoordinator.run', "runner.wait(timeout_seconds=0.5)", "runner.wait(timeout_seconds=timeout_seconds)"))
+
+
+# -- classic-trap sweeps: positive examples (expected count on the clean tree is zero) -----------------------------------
+fire('sweep-late-binding-thunk', ['C01', 'C04', 'C05'], 'SWEEP.LOOP-CLOSURE-BINDING',
+     (PROC, 'ProcessExecutor._start_processes', "            thunk = self._pending_future_to_thunk[future]\n", "            thunk = lambda: self._pending_future_to_thunk[future]()\n"),
+     note='a thunk created per future that looks the future up by name when it finally runs')
+fire('sweep-generator-consumed-twice', ['C03', 'C01'], 'SWEEP.ITERATOR-REUSE',
+     (LAB, 'TaskState.process_tasks', "        all_dependencies: list[Task] = []\n        for task in tasks:", "        all_dependencies: list[Task] = []\n        tasks = iter(tasks)\n        logger.debug(f'{len(list(tasks))} tasks')\n        for task in tasks:"))
+fire('sweep-except-or', ['C10', 'C11'], 'SWEEP.COMPARISON-TRAPS',
+     (PROC, 'ProcessMonitor._get_process_info', "except psutil.NoSuchProcess:", "except psutil.NoSuchProcess or psutil.AccessDenied:"))
+fire('sweep-is-literal', ['C06', 'C09'], 'SWEEP.COMPARISON-TRAPS',
+     ('labtech/cache.py', 'BaseCache.load_metadata', "if metadata.get('cache') != self.__class__.__qualname__:", "if metadata.get('cache') is not 'PickleCache':"))
+fire('sweep-loop-rebinds-parameter', ['C08'], 'SWEEP.PARAM-NOT-REBOUND-BY-LOOP',
+     (LAB, 'Lab.uncache_tasks', "        for task in tasks:\n            if self.is_cached(task):\n                task._lt.cache.delete(self._storage, task)",
+      "        for tasks in [tasks]:\n            pass\n        for task in tasks:\n            if self.is_cached(task):\n                task._lt.cache.delete(self._storage, task)"))
